@@ -414,6 +414,9 @@ class Project:
         if isinstance(expr, ast.UnaryOp) and isinstance(expr.op, ast.USub):
             v = self.eval_const(mi, expr.operand, _depth)
             return -v if isinstance(v, (int, float)) else None
+        if isinstance(expr, ast.Call) and isinstance(expr.func, ast.Name) and expr.func.id == "len" and len(expr.args) == 1 and not expr.keywords:
+            v = self.eval_const(mi, expr.args[0], _depth)
+            return len(v) if isinstance(v, (str, bytes)) else None
         if isinstance(expr, ast.BinOp):
             a = self.eval_const(mi, expr.left, _depth)
             b = self.eval_const(mi, expr.right, _depth)
